@@ -39,8 +39,11 @@ def execute(cfg, prefix, on_point=None, line=False, seam='fork'):
     s = sched.Sched(prefix, on_point, line_module=m.__file__ if line else None)
     s.extra_state = lambda: module_state(m)
     s.model_feeder = bool(cfg.get('feeder'))
-    saved = (m.mp, m.threading, m.queue)
-    m.mp, m.threading, m.queue = s.mp_mod(), s.threading_mod(), s.queue_mod()
+    # substitute whichever concurrency modules parallelize.py refers to (a refactoring may drop or rename an import)
+    subst = {'mp': s.mp_mod, 'multiprocessing': s.mp_mod, 'threading': s.threading_mod, 'queue': s.queue_mod}
+    saved = {name: getattr(m, name) for name in subst if hasattr(m, name)}
+    for name in saved:
+        setattr(m, name, subst[name]())
     full = (1 << R) - 1
 
     def pred(row):
@@ -76,7 +79,8 @@ def execute(cfg, prefix, on_point=None, line=False, seam='fork'):
             return out
         result, exc, deadlock = s.run(body)
     finally:
-        m.mp, m.threading, m.queue = saved
+        for name, val in saved.items():
+            setattr(m, name, val)
     return s, result, exc, deadlock
 
 
